@@ -158,7 +158,7 @@ def batch(ctx, n):
     rng = ctx.rng
     ctx.add('rs.dblbatch', '[]', expect=['[]'], cls='batch:n=0')
     for _ in range(n):
-        k = rng.choice([1, 2, 3, 33, rng.randint(2, 12)])
+        k = rng.choice([1, 2, 3, 33, rng.randint(2, 12), rng.randint(13, 70), rng.choice([64, 127, 128, 129, 200])])
         items = []
         exp = []
         cl = ['batch:n=1' if k == 1 else 'batch:n>1']
